@@ -209,6 +209,18 @@ def exec (s : State) : List Step → Option State
   | [] => some s
   | st :: sts => if valid s st then exec (step s st) sts else none
 
+/-- the step the back-end thread takes next (its code is sequential; when it waits, the
+time-out is what is guaranteed to come) -/
+def beNext (s : State) : Option Step :=
+  match s.bpc with
+  | .top => some .bTop
+  | .waiting => some (.bWake true)
+  | .woke _ _ => some .bGrab
+  | .drain _ => some .bPop
+  | .inCb _ => some .bCbRet
+  | .pushFree _ => some .bPushFree
+  | .exited => none
+
 /-! ### lock discipline annotations -/
 
 inductive Lock where | currM | fullM | freeM | bnM
